@@ -62,7 +62,12 @@ func (c *ClientCodec) Decode(response []byte, context *core.ClientContext) (resu
 			}
 			result = []interface{}{t.Indirect(p)}
 		default:
-			res := resp.Result.([]interface{})
+			res, ok := resp.Result.([]interface{})
+			if !ok || len(res) > n {
+				// several results are declared: the result must be a list of no more
+				// than that many values
+				return nil, jsonrpcError{codeInvalidParams, "Invalid result"}
+			}
 			result = make([]interface{}, 0, len(res))
 			for i, r := range res {
 				data, _ := c.Codec.Marshal(r)
